@@ -108,6 +108,22 @@ func c10g(c *Ctx) {
 					nOwn++
 					return
 				}
+				// made for this function by a constructor: a helper all of whose results are nodes
+				// it has just allocated (`block := newEmptyBlock(tok)`)
+				if call, isCall := fa.X.(*ssa.Call); isCall {
+					if g := callee(call); g != nil && c.W.InRepo(g) && len(g.Blocks) > 0 && g.Signature.Results().Len() == 1 {
+						fresh := true
+						for _, r := range returnsOf(g) {
+							if _, own := r.Results[0].(*ssa.Alloc); !own {
+								fresh = false
+							}
+						}
+						if fresh {
+							nOwn++
+							return
+						}
+					}
+				}
 				foreign = append(foreign, site{fn, st, n.Obj().Name() + "." + fieldName(fa.X.Type(), fa.Field)})
 			})
 		}
